@@ -46,6 +46,8 @@ type c06DB struct {
 	work      c06State
 	inTx      bool
 	openTx    int
+	bizFails  bool // the business callback returns an error
+	bizRan    bool
 
 	stmts   int // statements issued so far (Prepare, Exec, Query each count)
 	failAt  int // the failAt-th statement fails; -1: none
@@ -248,6 +250,11 @@ func c06Deliver(db *c06DB, sqlDB *sql.DB, phase enum.FencePhase) (err error, pan
 			case enum.FencePhaseRollback:
 				db.work.cancel++
 			}
+			if db.bizFails {
+				// the business step failed after it had started to write (same transaction)
+				db.bizRan = true
+				return errors.New("business failed")
+			}
 			return nil
 		})
 	}()
@@ -281,6 +288,12 @@ func VerifC06Step() {
 	before := *pre
 	phase := enum.FencePhase(1 + vrt.Choice("phase", 3))
 	db.failAt = vrt.Choice("failAt", 7) - 1 // -1: no fault; 0..5: that statement fails
+	// deliveries for which the fence has nothing to do (duplicate commit or
+	// rollback, rollback before try)
+	noop := (phase == enum.FencePhaseCommit && before.present && before.status == byte(enum.StatusCommitted)) ||
+		(phase == enum.FencePhaseRollback && (!before.present || before.status == byte(enum.StatusRollbacked) || before.status == byte(enum.StatusSuspended)))
+	// the business step itself may fail once the fence has admitted the delivery
+	db.bizFails = !noop && db.failAt < 0 && vrt.Bool("business.fails")
 
 	err, panicked := c06Deliver(db, sqlDB, phase)
 	post := db.committed
@@ -300,10 +313,15 @@ func VerifC06Step() {
 		vrt.Assert(c06Same(post, before), "step/fault=>unchanged/"+tag)
 		return
 	}
-	// deliveries for which the fence has nothing to do (duplicate commit or
-	// rollback, rollback before try): the business callback must not be applied
-	noop := (phase == enum.FencePhaseCommit && before.present && before.status == byte(enum.StatusCommitted)) ||
-		(phase == enum.FencePhaseRollback && (!before.present || before.status == byte(enum.StatusRollbacked) || before.status == byte(enum.StatusSuspended)))
+	if db.bizRan {
+		// fence record and business effect go together: the caller must be told, so that
+		// it rolls both back
+		vrt.Reach("step/business-failed")
+		vrt.Assert(err != nil, "step/business-failure=>error/"+tag)
+		vrt.Assert(c06Same(post, before), "step/business-failure=>unchanged/"+tag)
+		return
+	}
+	// ... there the business callback must not be applied
 	if noop {
 		vrt.Reach("step/noop-delivery")
 		if err != nil {
